@@ -191,7 +191,7 @@ theorem hostInv_wakeCore {c : Cfg} {now wake : Nat} {h : Host} (hi : HostInv c n
   · rename_i hint
     split
     · -- EINTR with the command timeout expired: report, fail
-      refine ⟨?_, Or.inr rfl, rfl⟩
+      refine ⟨?_, Or.inr (by simp), by simp⟩
       constructor <;> simp
     · rename_i hnt
       have hu := (hi.readIntr hph hint).1
@@ -213,7 +213,7 @@ theorem hostInv_selfTimeout {c : Cfg} {now wake : Nat} {h : Host} (hi : HostInv 
     ((h.selfTimeout c now).ph = h.ph ∨ (h.selfTimeout c now).ph = .finished) := by
   simp only [Host.selfTimeout]
   split
-  · refine ⟨?_, Or.inr rfl⟩
+  · refine ⟨?_, Or.inr (by simp)⟩
     constructor <;> simp [hint]
   · exact ⟨hi, Or.inl rfl⟩
 
